@@ -144,7 +144,24 @@ func c17Swamp(fs *Facts) {
 		fs.Tri("destroyDrainsThenCancels", Unknown, c17SwampPath)
 	}
 	if c != nil {
-		fs.Tri("closeCancels", TriOf(c17Index(f, c.Body.List, "s.goRoutineCancelFunction()") >= 0), c14Where(f, c))
+		// after `closing = 1` every path must reach the (top-level) cancel: no return in between
+		cancelIdx := c17Index(f, c.Body.List, "s.goRoutineCancelFunction()")
+		closingIdx := c17Index(f, c.Body.List, "atomic.StoreInt32(&s.closing, 1)")
+		ok := cancelIdx >= 0 && closingIdx >= 0 && closingIdx < cancelIdx
+		if ok {
+			for _, st := range c.Body.List[closingIdx+1 : cancelIdx] {
+				ast.Inspect(st, func(n ast.Node) bool {
+					if _, isFn := n.(*ast.FuncLit); isFn {
+						return false
+					}
+					if _, isRet := n.(*ast.ReturnStmt); isRet {
+						ok = false
+					}
+					return true
+				})
+			}
+		}
+		fs.Tri("closeCancels", TriOf(ok), c14Where(f, c))
 	} else {
 		fs.Tri("closeCancels", Unknown, c17SwampPath)
 	}
